@@ -3,6 +3,7 @@ package actionlint
 import (
 	"fmt"
 	"io"
+	"sort"
 	"time"
 )
 
@@ -64,7 +65,17 @@ func (v *Visitor) Visit(n *Workflow) error {
 		t = time.Now()
 	}
 
+	// Visit jobs in the order of their positions in the source. Iterating the map directly makes the
+	// order random, and the order decides which job reports errors which are reported only once
+	// (e.g. errors in metadata of a local action used by multiple jobs)
+	jobs := make([]*Job, 0, len(n.Jobs))
 	for _, j := range n.Jobs {
+		jobs = append(jobs, j)
+	}
+	sort.Slice(jobs, func(i, k int) bool {
+		return jobs[i].Pos != nil && jobs[k].Pos != nil && jobs[i].Pos.IsBefore(jobs[k].Pos)
+	})
+	for _, j := range jobs {
 		if err := v.visitJob(j); err != nil {
 			return err
 		}
